@@ -28,6 +28,7 @@ fn trait_cases() -> Vec<TraitCase> {
         TraitCase { generics: "", args: "Tr", methods: vec![("f", "async fn f(&self, a: String) -> usize;", vec!["a"], true), ("g", "fn g(&self, a: String, b: u8, c: u8);", vec!["a", "b", "c"], false)] },
         TraitCase { generics: "<'x, T: 'x>", args: "Tr<'x,T>", methods: vec![("f", "fn f(&self, r: &'x T) -> &'x T;", vec!["r"], false)] },
         TraitCase { generics: "", args: "Tr", methods: vec![("f", "fn f(self: &Self, a: i32) -> i32;", vec!["a"], false)] },
+        TraitCase { generics: "", args: "Tr", methods: vec![("f", "fn f(&self, a: i32) -> i32;", vec!["a"], false), ("m", "fn m(&mut self, a: i32);", vec!["a"], false)] },
     ]
 }
 
@@ -62,7 +63,7 @@ fn entrait_t_bounds(im: &syn::ItemImpl) -> Vec<String> {
 }
 
 fn c06(_ctx: &Ctx, r: &mut Report) {
-    r.domain = "6 trait shapes (1..3 methods, same-signature methods, generic trait, generic method, lifetimes, async, `self: &Self`) x delegation selector {default, delegate_by = Self, delegate_by = ref, delegate_by = Borrow} x {plain, async_trait}".into();
+    r.domain = "7 trait shapes (1..3 methods, same-signature methods, generic trait, generic method, lifetimes, async, `self: &Self`) x delegation selector {default, delegate_by = Self, delegate_by = ref, delegate_by = Borrow} x {plain, async_trait}".into();
     r.bound = "exhaustive over the listed shapes".into();
     for tc in trait_cases() {
         for sel in ["", "delegate_by = Self", "delegate_by = ref", "delegate_by = Borrow"] {
@@ -142,7 +143,7 @@ fn c06(_ctx: &Ctx, r: &mut Report) {
 }
 
 fn c07(_ctx: &Ctx, r: &mut Report) {
-    r.domain = "delegated traits (the 6 shapes of c06) x {static: delegate_by = DelegateTr, dynamic: delegate_by = ref, dynamic: delegate_by = Borrow}; impl blocks `#[entrait] impl TrImpl for X` / `#[entrait(ref)]` / `#[entrait(dyn)]` with 1..3 fns, 0..2 further dependency bounds, sync and async".into();
+    r.domain = "delegated traits (the shapes of c06) x {static: delegate_by = DelegateTr, dynamic: delegate_by = ref, dynamic: delegate_by = Borrow}; impl blocks `#[entrait] impl TrImpl for X` / `#[entrait(ref)]` / `#[entrait(dyn)]` with 1..3 fns, 0..2 further dependency bounds, sync and async".into();
     r.bound = "exhaustive over the listed shapes".into();
     for tc in trait_cases() {
         if tc.generics.contains("'x") {
@@ -190,7 +191,8 @@ fn c07(_ctx: &Ctx, r: &mut Report) {
                     }
                     let ins: Vec<String> = sig.inputs.iter().map(|a| squash(&tt_string(a))).collect();
                     let impl_param = "__impl:&::entrait::Impl<EntraitT>".to_string();
-                    let head: Vec<String> = if dynamic { vec!["&self".into(), impl_param.clone()] } else { vec![impl_param.clone()] };
+                    let self_tok = if _d.contains("&mut self") { "&mutself" } else { "&self" };
+                    let head: Vec<String> = if dynamic { vec![self_tok.into(), impl_param.clone()] } else { vec![impl_param.clone()] };
                     let got_head: Vec<String> = ins.iter().take(head.len()).cloned().collect();
                     let recv_ok = got_head == head || (dynamic && got_head == vec!["self:&Self".to_string(), impl_param.clone()]);
                     if !recv_ok {
